@@ -1068,7 +1068,7 @@ func identOf(e ast.Expr) *ast.Ident {
 
 // sortingSink: parameter i of fn only flows into consumers that sort it.
 func (k *c05) sortingSink(fn *types.Func, i int, depth int) (bool, string) {
-	if depth > 4 || fn == nil {
+	if depth > 7 || fn == nil {
 		return false, ""
 	}
 	// terminal: compiler option that copies names into the field that New sorts
@@ -1132,7 +1132,7 @@ func (k *c05) varSink(pk *packages.Package, body ast.Node, v *types.Var, depth i
 
 // fieldSink: every read of struct field f in the repository is a sorting sink.
 func (k *c05) fieldSink(f *types.Var, depth int) (bool, string) {
-	if depth > 4 {
+	if depth > 7 {
 		return false, ""
 	}
 	ok := true
